@@ -14,8 +14,11 @@ synthetic drivers of the harness interpret them against the real ones.  Go maps 
 lists with newest-first lookup; `nil`/empty values are `none` (cacheDB treats a stored nil as
 "cached, not found").  A Go panic that escapes `(*executor).Exec`'s recover is the explicit
 outcome `blockPanic` (procExecTxList replies ErrExecPanic for the whole block).
-Fork flags are parameters (`Env`).  Quirks are mirrored, notably: `LocalDB.Rollback` does not
-clear the buffered `kvs` (finding S-C11).
+Fork flags are parameters (`Env`).  `LocalDB` is the repaired code (/repo c51e8d4): `Begin` remembers
+`len(kvs)` in `txkvs`, `Rollback` truncates the buffered `kvs` to it (the pre-repair `Rollback` kept
+them: finding S-C11, kept as `LocalDB.rollbackOld` for the regression witness).
+Not modelled: `common/db.LocalDB.get` copies a main-db hit into its memdb `cache`; the main db is
+immutable while the local transaction object exists, so the copy cannot change any answer.
 -/
 namespace C11
 
@@ -130,18 +133,19 @@ def set (r : Remote) (k : Bytes) (v : Bytes) : Remote :=
     | some t => { r with txcache := some ((k, v) :: t) }
   else { r with cache := (k, v) :: r.cache }
 
-/-- `Get` (+ `isdeleted`): a main-db hit is copied into `cache`. -/
-def get (r : Remote) (k : Bytes) : Remote × Option Bytes :=
+/-- `Get` (+ `isdeleted`): txcache (in a transaction), cache, main db.  (The copy of a main-db hit into
+`cache` is not modelled, see the header.) -/
+def get (r : Remote) (k : Bytes) : Option Bytes :=
   let inTx := if r.intx then (match r.txcache with | some t => lookup k t | none => none) else none
   match inTx with
-  | some v => (r, optBytes v)
+  | some v => optBytes v
   | none =>
     match lookup k r.cache with
-    | some v => (r, optBytes v)
+    | some v => optBytes v
     | none =>
       match lookup k r.main with
-      | some v => ({ r with cache := (k, v) :: r.cache }, optBytes v)
-      | none => (r, none)
+      | some v => optBytes v
+      | none => none
 
 /-- `List(prefix, nil, 0, ASC|WithKey)`: merged view txcache > cache > main, deleted entries skipped. -/
 def list (r : Remote) (p : Bytes) : List (Bytes × Bytes) :=
@@ -166,6 +170,8 @@ structure LocalDB where
   hasbegin : Bool := false
   /-- writes not yet sent to the remote store (`l.kvs`); `[]` = nil -/
   kvs : List (Bytes × Bytes) := []
+  /-- `len(kvs)` when the open transaction began -/
+  txkvs : Nat := 0
   disableread : Bool := false
   disablewrite : Bool := false
   remote : Remote := {}
@@ -175,7 +181,8 @@ namespace LocalDB
 
 def resetTx (l : LocalDB) : LocalDB := { l with intx := false, txcache := [], keys := [], hasbegin := false }
 def startTx (l : LocalDB) : LocalDB := { l with keys := [] }
-def begin (l : LocalDB) : LocalDB := { l with intx := true, keys := [], txcache := [], hasbegin := false }
+def begin (l : LocalDB) : LocalDB :=
+  { l with intx := true, keys := [], txcache := [], hasbegin := false, txkvs := l.kvs.length }
 
 /-- `save`: first use begins the remote transaction, then `LocalSet(kvs)`. -/
 def save (l : LocalDB) : LocalDB :=
@@ -183,7 +190,7 @@ def save (l : LocalDB) : LocalDB :=
   else
     let r := if l.hasbegin then l.remote else l.remote.begin
     let r := l.kvs.foldl (fun r kv => r.set kv.1 kv.2) r
-    { l with remote := r, hasbegin := true, kvs := [] }
+    { l with remote := r, hasbegin := true, kvs := [], txkvs := 0 }
 
 def commit (l : LocalDB) : LocalDB :=
   let l := { l with cache := l.txcache ++ l.cache }
@@ -191,8 +198,14 @@ def commit (l : LocalDB) : LocalDB :=
   let l := if l.hasbegin then { l with remote := l.remote.commit } else l
   l.resetTx
 
-/-- `Rollback`: note that `kvs` is NOT cleared (mirrors the code; S-C11). -/
+/-- `Rollback` (repaired): the still-buffered writes of the rolled back transaction are dropped. -/
 def rollback (l : LocalDB) : LocalDB :=
+  let l := if l.intx && decide (l.txkvs ≤ l.kvs.length) then { l with kvs := l.kvs.take l.txkvs } else l
+  let l := if l.hasbegin then { l with remote := l.remote.rollback } else l
+  l.resetTx
+
+/-- `Rollback` before the repair: `kvs` was NOT cleared (S-C11); only used by the regression witness. -/
+def rollbackOld (l : LocalDB) : LocalDB :=
   let l := if l.hasbegin then { l with remote := l.remote.rollback } else l
   l.resetTx
 
@@ -209,8 +222,8 @@ def get (l : LocalDB) (k : Bytes) : LocalDB × Except DbErr Bytes :=
       match lookup k l.cache with
       | some v => ret l v
       | none =>
-        let (r, v) := l.remote.get k
-        ret { l with remote := r, cache := (k, v) :: l.cache } v
+        let v := l.remote.get k
+        ret { l with cache := (k, v) :: l.cache } v
 
 def set (l : LocalDB) (k v : Bytes) : LocalDB × Except DbErr Unit :=
   if l.disablewrite then (l, .error .disableWrite)
@@ -487,6 +500,15 @@ inductive LocalRes
   | err (e : Err) (st : St) (obs : List Obs)
   | blockPanic
 
+/-- `for _, kv := range kv.KV { err = e.localDB.Set(kv.Key, kv.Value); if err != nil { panic(err) } }`;
+`none` = the panic. -/
+def setAll : List (Bytes × Bytes) → LocalDB → Option LocalDB
+  | [], l => some l
+  | kv :: r, l =>
+    match l.set kv.1 kv.2 with
+    | (l, .ok _) => setAll r l
+    | (_, .error _) => none
+
 def execLocalTx (st : St) (tx : Tx) (obs : List Obs) : LocalRes :=
   match runLocalOps tx.localOps st [] obs with
   | (_, .panic, _) => .blockPanic
@@ -498,12 +520,7 @@ def execLocalTx (st : St) (tx : Tx) (obs : List Obs) : LocalRes :=
       else if decl.any (fun kv => (C12.isAllowLocalKey tx.execer kv.1).isSome) then .blockPanic   -- checkPrefix panics
       else
         -- `for kv: localDB.Set` (write enabled here; an error would panic)
-        let r := decl.foldl (fun (acc : Option LocalDB) kv =>
-          match acc with
-          | none => none
-          | some l => match l.set kv.1 kv.2 with
-            | (l, .ok _) => some l
-            | (_, .error _) => none) (some st.ldb)
+        let r := setAll decl st.ldb
         match r with
         | some l => .ok { st with ldb := l } obs
         | none => .blockPanic
